@@ -46,6 +46,11 @@
 //!   cleanupscope <k>                   `Owner::cleanup` on the k-th scope's owner: its Arc nodes must keep working
 //!   disposew <id>                      wrap signal / memo <id> in a fresh `Signal::from(..)` and `dispose()` that wrapper:
 //!                                      nothing changes for the node and its other readers
+//!   onclr <sig>                        (with `oncl`) the cleanup callbacks read signal <sig> with `.get()`: a cleanup is not part
+//!                                      of the body, so this subscribes nobody
+//!   setun <id> <v>                     untracked write (`update_untracked` / `write_untracked`) followed by an explicit
+//!                                      `notify()` through the handle or its MappedSignal wrapper: the same as `set`
+//!   wrap 6                             reads through `Signal<Option<T>>::from(Signal::from(node))`
 //!   oncl                               every effect run registers one `on_cleanup` (C02 prints ` cl=<node>:<calls>,…`)
 //!   set <id> <v> | sset <slice> <v> | read <id> | poll <i> | idle
 //! <expr> prefix tokens: L<n> | R<id> (tracked read) | U<id> (read under untrack) |
@@ -62,7 +67,7 @@ use reactive_graph::{
         arc_signal, signal, ArcMappedSignal, ArcReadSignal, ArcRwSignal, ArcWriteSignal, MappedSignal, ReadSignal, RwSignal,
         WriteSignal,
     },
-    traits::{Get, GetUntracked, Read, ReadUntracked, Set, Update, With, WithUntracked, Write},
+    traits::{Get, GetUntracked, Notify, Read, ReadUntracked, Set, Update, UpdateUntracked, With, WithUntracked, Write},
     wrappers::{
         read::{ArcSignal, MaybeProp, Signal},
         write::SignalSetter,
@@ -202,6 +207,8 @@ enum Reader {
     #[allow(deprecated)]
     Maybe(MaybeSignal<i64>),
     Prop(MaybeProp<i64>),
+    /// `Signal<Option<T>>::from(Signal<T>)`
+    OptSig(Signal<Option<i64>>),
 }
 
 /// what one invocation of a body did (recorded by the interpreter inside the real closure)
@@ -268,6 +275,8 @@ pub struct Shared {
     pub cl_calls: Vec<usize>,
     /// dropped memos
     pub dropped: Vec<usize>,
+    /// `onclr`: the signal cleanup callbacks read
+    pub onclr: Option<usize>,
 }
 
 impl Shared {
@@ -576,6 +585,7 @@ macro_rules! read_with {
             Reader::ArcMapped(s) => $m!(s, $a),
             Reader::Maybe(s) => $m!(s, $a),
             Reader::Prop(s) => pick_opt!($m, s, $a),
+            Reader::OptSig(s) => pick_opt!($m, s, $a),
             Reader::Direct => match $h {
                 Handle::ArcSig(s) => $m!(s, $a),
                 Handle::Sig(s) => $m!(s, $a),
@@ -611,6 +621,43 @@ fn read_node(h: &Handle, r: &Reader, tracked: bool, a: Option<usize>) -> i64 {
     } else {
         read_with!(untracked, h, r, a)
     }
+}
+
+macro_rules! write_untracked_notify {
+    ($x:expr, $v:expr, $a:expr) => {{
+        match $a.map(|a| a % 2) {
+            None | Some(0) => {
+                $x.update_untracked(|x| *x = $v);
+            }
+            _ => {
+                *$x.write_untracked() = $v;
+            }
+        }
+        $x.notify();
+    }};
+}
+
+/// `setun`: untracked write, then an explicit `notify()`
+fn write_then_notify(h: &Handle, r: &Reader, v: i64, a: Option<usize>) -> bool {
+    match r {
+        Reader::Mapped(m) => {
+            write_untracked_notify!(m, v, a);
+            return true;
+        }
+        Reader::ArcMapped(m) => {
+            write_untracked_notify!(m, v, a);
+            return true;
+        }
+        _ => {}
+    }
+    match h {
+        Handle::ArcSig(s) => write_untracked_notify!(s, v, a),
+        Handle::Sig(s) => write_untracked_notify!(s, v, a),
+        Handle::ArcSplit(_, s) => write_untracked_notify!(s, v, a),
+        Handle::Split(_, s) => write_untracked_notify!(s, v, a),
+        _ => return false,
+    }
+    true
 }
 
 fn write_handle(h: &Handle, r: &Reader, v: i64, a: Option<usize>) {
@@ -814,14 +861,19 @@ fn begin_run(sh: &Sh, id: usize) {
             }
             let gen = g.runs[id] + 1;
             g.cl_pending[id].push(gen);
-            Some(gen)
+            let rd = g.onclr.and_then(|s| g.handles.get(s).cloned().zip(g.readers.get(s).cloned()));
+            Some((gen, rd))
         } else {
             None
         }
     };
-    if let Some(gen) = register {
+    if let Some((gen, rd)) = register {
         let sh = sh.clone();
         on_cleanup(move || {
+            // a cleanup callback may read reactive values; it is not the body: nobody gets subscribed by it
+            if let Some((h, r)) = &rd {
+                read_node(h, r, true, None);
+            }
             let mut g = sh.lock().unwrap();
             match g.cl_pending[id].iter().position(|x| *x == gen) {
                 Some(p) => {
@@ -1281,6 +1333,12 @@ impl Case {
             (5, Handle::Sig(x)) => Reader::Prop(MaybeProp::from(*x)),
             (5, Handle::Split(x, _)) => Reader::Prop(MaybeProp::from(*x)),
             (5, Handle::Memo(x)) => Reader::Prop(MaybeProp::from(*x)),
+            (6, Handle::Sig(x)) => Reader::OptSig(Signal::<Option<i64>>::from(Signal::<i64>::from(*x))),
+            (6, Handle::Split(x, _)) => Reader::OptSig(Signal::<Option<i64>>::from(Signal::<i64>::from(*x))),
+            (6, Handle::Memo(x)) => Reader::OptSig(Signal::<Option<i64>>::from(Signal::<i64>::from(*x))),
+            (6, Handle::ArcSig(x)) => Reader::OptSig(Signal::<Option<i64>>::from(Signal::<i64>::from(x.clone()))),
+            (6, Handle::ArcSplit(x, _)) => Reader::OptSig(Signal::<Option<i64>>::from(Signal::<i64>::from(x.clone()))),
+            (6, Handle::ArcMemo(x)) => Reader::OptSig(Signal::<Option<i64>>::from(Signal::<i64>::from(x.clone()))),
             _ => Reader::Direct,
         });
         self.push_entry(d.clone(), h, reader, coarse, None);
@@ -1394,6 +1452,33 @@ impl Case {
                 slot.paused_at_runs = None;
             }
         }
+    }
+
+    pub fn set_onclr(&mut self, s: usize) -> bool {
+        let mut g = self.sh.lock().unwrap();
+        if !matches!(g.defs.get(s), Some(Def::Sig(_))) || g.is_field(s) {
+            return false;
+        }
+        g.onclr = Some(s);
+        true
+    }
+
+    pub fn setun(&mut self, id: usize, v: i64) -> bool {
+        if self.sh.lock().unwrap().is_field(id) {
+            return false;
+        }
+        self.end_excuses(id);
+        let (h, r, a) = {
+            let mut g = self.sh.lock().unwrap();
+            if !matches!(g.defs.get(id), Some(Def::Sig(_))) {
+                return false;
+            }
+            g.env[id] = v;
+            g.ver[id] += 1;
+            g.op_sites += 1;
+            (g.handles[id].clone(), g.readers[id].clone(), g.acc.map(|n| n + g.op_sites))
+        };
+        write_then_notify(&h, &r, v, a)
     }
 
     pub fn set(&mut self, id: usize, v: i64) -> bool {
